@@ -373,7 +373,9 @@ class IRGenerator:
             elif isinstance(item, AstStructPatch) or isinstance(item, AstUnionPatch):
                 # Handle patches later.
                 base_name = self._get_base_name(item.name, namespace.name)
-                self._patch_data_by_canonical_name[base_name] = (item, namespace)
+                # A type can be patched more than once.
+                self._patch_data_by_canonical_name.setdefault(
+                    base_name, []).append((item, namespace))
             elif isinstance(item, AstRouteDef):
                 route = self._create_route(env, item)
                 namespace.add_route(route)
@@ -615,13 +617,15 @@ class IRGenerator:
 
     def _merge_patches(self):
         """Injects object patches into their original object definitions."""
-        for patched_item, patched_namespace in self._patch_data_by_canonical_name.values():
+        patches = [patch for patch_list in self._patch_data_by_canonical_name.values()
+                   for patch in patch_list]
+        for patched_item, patched_namespace in patches:
             patched_item_base_name = self._get_base_name(patched_item.name, patched_namespace.name)
-            if patched_item_base_name not in self._item_by_canonical_name:
+            existing_item = self._item_by_canonical_name.get(patched_item_base_name)
+            # The table is keyed by canonical name: insist on the very name.
+            if existing_item is None or existing_item.name != patched_item.name:
                 raise InvalidSpec('Patch {} must correspond to a pre-existing data_type.'.format(
                     quote(patched_item.name)), patched_item.lineno, patched_item.path)
-
-            existing_item = self._item_by_canonical_name[patched_item_base_name]
 
             self._check_patch_type_mismatch(patched_item, existing_item)
 
